@@ -41,6 +41,7 @@ func runC06(c *core.Ctx) {
 	ruleLZWEarlyChange(c)
 	ruleCCITTNoEOLInGroup4(c)
 	ruleCCITTTables(c, "C06-R6")
+	ruleBitAccumulatorReset(c, "C06-R15")
 	ruleAliasHygiene(c, [3]string{"C06-R12", "C06-R13", "C06-R14"}, "pdf/internal/filter/lzw", "pdf/internal/filter/predict", "pdf/internal/filter/runlength", "pdf/internal/filter/ccittfax", "pdf/internal/filter/ascii85", "pdf/internal/filter/asciihex")
 }
 
@@ -91,6 +92,7 @@ func runC07(c *core.Ctx) {
 	ruleTIFF16Carry(c, "C07-R7")
 	rulePNGAverage(c, "C07-R8")
 	ruleCCITTTables(c, "C07-R2")
+	ruleBitAccumulatorReset(c, "C07-R9")
 }
 
 func ruleFilterNames(c *core.Ctx) {
@@ -1088,4 +1090,68 @@ func rulePNGAverage(c *core.Ctx, rule string) {
 			o.Require(n >= 1, "%s: no halved sum found (Average predictor)", fn.Key)
 		})
 	}
+}
+
+// ruleBitAccumulatorReset (C07-R9 / C06-R15): the CCITT encoder builds its
+// output in a one-byte accumulator (byteVal) with a fill count (validBits);
+// writeBits only ORs bits into the accumulator.  Whenever the count is reset
+// to zero the accumulator must be cleared as well, otherwise the 1-bits of
+// the byte just written leak into the next one (visible with
+// EncodedByteAlign, where a row ends in the middle of a byte).
+func ruleBitAccumulatorReset(c *core.Ctx, rule string) {
+	const pk = "pdf/internal/filter/ccittfax"
+	c.Check(rule, pk+".Writer/bit-accumulator", "every reset of the bit count is accompanied by a reset of the bit accumulator on the same path", func(o *core.Ob) {
+		pkg := c.Prog.Pkg(pk)
+		n := 0
+		for _, fn := range c.Prog.Funcs(pkg) {
+			info := fn.Info()
+			g := fn.Graph()
+			isZeroStore := func(v *core.V, field string) bool {
+				as, ok := v.AST.(*ast.AssignStmt)
+				if !ok || as.Tok != token.ASSIGN {
+					return false
+				}
+				for i, l := range as.Lhs {
+					sel, ok := ast.Unparen(l).(*ast.SelectorExpr)
+					if !ok || sel.Sel.Name != field || i >= len(as.Rhs) {
+						continue
+					}
+					if f, ok := info.ObjectOf(sel.Sel).(*types.Var); !ok || !f.IsField() {
+						continue
+					}
+					if k, ok := core.IntConst(info, as.Rhs[i]); ok && k == 0 {
+						return true
+					}
+				}
+				return false
+			}
+			var cnt, acc []*core.V
+			for _, v := range g.Vs {
+				if isZeroStore(v, "validBits") {
+					cnt = append(cnt, v)
+				}
+				if isZeroStore(v, "byteVal") {
+					acc = append(acc, v)
+				}
+			}
+			for _, cv := range cnt {
+				n++
+				o.Count(1)
+				o.At(fn.Site(cv.AST, "bit count reset"))
+				ok := false
+				for _, av := range acc {
+					if g.Dominates(av, cv) && !g.ReachFrom(av, false, core.AvoidVs(cv))[av] {
+						ok = true
+					}
+				}
+				if !ok && len(acc) > 0 && g.MustPassBefore(cv, []*core.V{g.Exit}, acc) {
+					ok = true
+				}
+				if !ok {
+					o.FailAt(fn.Site(cv.AST, ""), "%s: the bit count is reset but the accumulator keeps the bits of the byte just written; writeBits ORs the next code into them", c.Prog.Pos(cv.AST.Pos()))
+				}
+			}
+		}
+		o.Require(n >= 2, "resets of the bit count not found")
+	})
 }
